@@ -680,7 +680,7 @@ def shard(ctx):
         salt = 1 + core_derive(ctx.seed, "C04", i) % (2**30)
         if not batch(case_strategy(kind, vec, plain, w, salt), 1, "sweep-%d" % i):
             return
-    left = ctx.per_shard(2500, 90000)
+    left = ctx.per_shard(1700, 40000)
     part = 0
     while left > 0:
         if not batch(case_strategy(), min(left, 400), "sampled-%d" % part):
